@@ -29,7 +29,8 @@ type Features struct {
 	PGroupDec float64 // decorator decorates a group
 	MaxParams int
 	Opts      []cat.Opts
-	FanTree   bool // siblings instead of a chain
+	FanTree   bool    // siblings instead of a chain
+	PInvalid  float64 // probability of adding a function dig must reject (two slots: constructor, decorator)
 }
 
 var scopeNames = []string{"r", "a", "b", "c"}
@@ -267,8 +268,25 @@ func Random(r *rand.Rand, ft Features) *cat.Catalog {
 	for _, id := range c.FnIDs() {
 		fixObjects(c.Fns[id])
 	}
+	// functions dig must reject: the specification says verdict invalid, nothing changes
+	if pick(r, ft.PInvalid) {
+		f := &cat.Fn{Kind: "ctor", Scope: scope(), Inv: InvalidCtor[r.Intn(len(InvalidCtor))], Rs: []cat.Result{{Ks: []string{"T7"}, M: "one"}}}
+		f.Exp = f.Scope != "r" && pick(r, 0.3)
+		c.Fns["x1"] = f
+	}
+	if pick(r, ft.PInvalid) {
+		f := &cat.Fn{Kind: "dec", Scope: scope(), Inv: InvalidDec[r.Intn(len(InvalidDec))], Rs: []cat.Result{{Ks: []string{"T7"}, M: "one"}}}
+		c.Fns["y1"] = f
+	}
 	return c
 }
+
+// InvalidCtor / InvalidDec: classes of rejectable functions (see harness/run/invalid.go).
+var InvalidCtor = []string{"nil", "nonfunc", "nilfunc", "ptrin", "outparam", "inresult", "noresult",
+	"badopt", "unexported", "grpnotslice", "grpoptional", "namegroup", "backquote", "asnonptr", "asnil",
+	"asunimpl", "flattenas", "emptygroup", "softresult", "flattennonslice", "embptrin", "errfield"}
+var InvalidDec = []string{"nil", "nonfunc", "nilfunc", "ptrin", "outparam", "inresult",
+	"badopt", "unexported", "grpnotslice", "emptygroup", "softresult", "decflatten", "decsingle"}
 
 // fixObjects makes the O numbering well-formed: parameters that need tags sit in an object,
 // and equal object numbers are contiguous.
